@@ -303,3 +303,7 @@ struct OOV {
     cost: i16,
     pos_id: u16,
 }
+
+// verification hook: harness text lives outside the repository (see MANIFEST.hooks)
+#[cfg(any(kani, sudachi_verif))]
+include!(concat!(env!("SUDACHI_VERIF_DIR"), "/plugin__oov__mecab_oov__mod.rs"));
